@@ -109,11 +109,12 @@ def gen_value(rng, grid):
     return rng.uniform(5.0, 200.0)
 
 
-def gen_universe(rng, min_dates=3, max_dates=30, min_cols=1, max_cols=6, nan_ok=True):
+def gen_universe(rng, min_dates=3, max_dates=30, min_cols=1, max_cols=6, nan_ok=True, cal=None):
     """returns dict: start, step kind, days (ints), cols, rows (float|None)"""
     grid = rng.choice(["int", "dyadic", "float", "float"])
     n = rng.randint(min_dates, max_dates)
-    cal = rng.choice(["daily", "bday", "weekly", "sparse"])
+    cal0 = rng.choice(["daily", "bday", "weekly", "sparse"])
+    cal = cal or cal0
     start = pd.Timestamp(rng.choice(["2019-12-20", "2020-02-20", "2021-06-01", "2018-01-01", "2022-12-27"])) + pd.Timedelta(days=rng.randint(0, 40))
     if cal == "daily":
         idx = pd.date_range(start, periods=n, freq="D")
